@@ -895,10 +895,15 @@ def read_facts(fails):
     soft(["stop_fails", "stop_ok_after_failure"], stop_task)
 
     def query_tasks():
-        for task in ("QueryClustersTask", "StatusTask"):
+        for task in ("QueryClustersTask", "StatusTask", "QueryMetricsTask", "SetMetricDetailTask"):
             what = "%s::on_finish" % task
             body, tname = on_finish_of(rq, task, what)
-            t = verdict_table(body, {}, [{tname: False}, {tname: True}], what)
+            # QueryMetricsTask answers early when only the metric names were asked for: both ways are run
+            free = ["self.options.list"] if task == "QueryMetricsTask" else []
+            cs = [{tname: False}, {tname: True}]
+            for f in free:
+                cs = [dict(c, **{f: v}) for c in cs for v in (False, True)]
+            t = verdict_table(body, {}, cs, what)
             if set(t.values()) != {("finish_ok_with_content",)}:
                 raise Unreadable("%s: expected a single unconditional finish_ok_with_content, found %s" % (what, sorted(set(t.values()))))
         return {}
@@ -939,10 +944,10 @@ def read_facts(fails):
             raise Unreadable("handle_client_request: the worker verbs no longer share one function")
         out["tmo_worker"] = tmo_of(fw.pop(), "the function serving worker verbs")
         tq = set()
-        for v in ("QueryClustersHashes", "QueryMetrics", "Status"):
+        for v in ("QueryClustersHashes", "QueryMetrics", "Status", "SetMetricDetail"):
             tq.add(tmo_of(callee_of(by_verb, v)[0], "the function serving %s" % v))
         if len(tq) != 1:
-            raise Unreadable("the query verbs (clusters, metrics, status) no longer share one Timeout (the model has one query kind)")
+            raise Unreadable("the query-kind verbs (clusters, metrics, status, metric detail) no longer share one Timeout (the model has one query kind)")
         out["tmo_query"] = tq.pop()
         (fs, a_soft), (fh, a_hard) = callee_of(by_verb, "SoftStop"), callee_of(by_verb, "HardStop")
         if fs != fh or not a_soft.endswith(",false") or not a_hard.endswith(",true"):
@@ -1087,8 +1092,8 @@ def translate(snapshot=False):
 # ---------------------------------------------------------------------------
 # generator
 
-SCATTER = ["wok", "wok", "wok", "query", "status", "metrics"]
-LOCALS = ["local", "wfail", "loadmissing", "none", "launch", "retsock", "reloadbad"]
+SCATTER = ["wok", "wok", "wok", "query", "status", "metrics", "mdetail"]
+LOCALS = ["local", "wfail", "loadmissing", "none", "launch", "retsock", "reloadbad", "mdetailbad"]
 
 
 class Sim:
@@ -1115,7 +1120,7 @@ class Sim:
 
     def req(self, c, verb, n=0):
         self.ops.append(["req", c, verb] + ([n] if verb in ("load", "loadbad") else []))
-        if verb in ("local", "wfail", "loadmissing", "none", "launch", "retsock", "reloadbad"):
+        if verb in LOCALS:
             return None
         if verb == "loadbad":
             # answered at once (failure), but its n requests were scattered: the workers may
@@ -1239,7 +1244,7 @@ def gen_case(rng, cid, allow_sleep, allow_stop, handover=None):
 def silent_cases():
     """a worker that is alive but silent past the worker timeout, for every scattering verb"""
     out = []
-    for verb, extra in (("wok", []), ("query", []), ("status", []), ("metrics", []), ("hardstop", []), ("load", [2]), ("softstop", [])):
+    for verb, extra in (("wok", []), ("query", []), ("status", []), ("metrics", []), ("mdetail", []), ("hardstop", []), ("load", [2]), ("softstop", [])):
         ops = [["hub", 2, 1, 2], ["req", 0, verb] + extra]
         per = extra[0] if extra else 1
         for k in range(per):
@@ -1277,7 +1282,7 @@ def corpus_cases():
 
 
 def nontrivial(case, o):
-    scattered = sum(1 for op in case.ops if op[0] == "req" and op[2] in ("wok", "query", "status", "metrics", "load", "loadbad", "hardstop", "softstop"))
+    scattered = sum(1 for op in case.ops if op[0] == "req" and op[2] in ("wok", "query", "status", "metrics", "mdetail", "load", "loadbad", "hardstop", "softstop"))
     wev = [op for op in case.ops if op[0] in ("resp", "respu", "close", "sleep")]
     fault = [op for op in wev if op[0] in ("respu", "close", "sleep") or (op[0] == "resp" and (op[1] != op[2] or op[4] != 0))]
     seen = {}
